@@ -248,12 +248,13 @@ Proof. destruct (bf_eq_dec f' f) as [->|N]; [destruct (Nat.eq_dec k' k) as [->|N
 Record ext (s s' : st) : Prop := {
   ext_cache : forall f k l d, lookup s f k = Some (l, d) -> exists d', lookup s' f k = Some (l, d') /\ (d = true -> d' = true);
   ext_cls : forall b, In b (cls s) -> In b (cls s');
-  ext_pending : forall p, In p (pending s) -> In p (pending s') }.
+  ext_pending : forall p, In p (pending s) -> In p (pending s');
+  ext_log : forall e, In e (log s) -> In e (log s') }.
 Lemma ext_refl s : ext s s.
 Proof. split; eauto. Qed.
 Lemma ext_trans a b c : ext a b -> ext b c -> ext a c.
 Proof.
-  intros [C1 L1 P1] [C2 L2 P2]. split; auto.
+  intros [C1 L1 P1 G1] [C2 L2 P2 G2]. split; auto.
   intros f k l d E. destruct (C1 _ _ _ _ E) as [d1 [E1 H1]]. destruct (C2 _ _ _ _ E1) as [d2 [E2 H2]]. exists d2. auto.
 Qed.
 Lemma ext_cached s s' f k l : ext s s' -> cached s f k l -> cached s' f k l.
@@ -287,6 +288,7 @@ Proof.
     exists d0. split; [|auto]. rewrite lookup_set_other by exact N. exact E.
   - intros b Hb. rewrite cls_set_add. apply in_or_app. now right.
   - intros p Hp. exact Hp.
+  - intros e He. change (In e (log (add_cls s key cs))). unfold add_cls. cbn [log]. destruct cs; [exact He|now right].
 Qed.
 Lemma fin_inv h todo s f k l d cs s' l' : Inv h todo s -> fin s f k l d cs = Some (l', s') ->
   (forall s'', ext s s'' -> s'' = set_cache (add_cls s (f, k) cs) f k l d -> entry_ok h todo s'' f k l d) ->
@@ -359,7 +361,8 @@ Proof.
           + inversion Ek; subst. rewrite L1 in E. inversion E; subst. exists true. split; [apply lookup_set_same|auto].
           + exists d0. split; [|auto]. unfold s'. now rewrite lookup_set_other by exact N.
         - intros b Hb. change (In b (cs ++ cls s1)). apply in_or_app. now right.
-        - auto. }
+        - auto.
+        - intros e0 He. change (In e0 (EFree e :: log (add_cls s1 (Nx n w x, k) cs))). right. unfold add_cls. cbn [log]. destruct cs; [exact He|now right]. }
       split; [|split; [eapply ext_trans; eauto|exists true; apply lookup_set_same]].
       apply (Inv_update h todo s1 s' (Nx n w x) k I1 X').
       * intros f' k' l1 d0 N E. unfold s' in E. now rewrite lookup_set_other in E by exact N.
@@ -417,37 +420,23 @@ Lemma pst_step_spec u sx sy k : pst u sx sy (S k) = tel_spec (pop u) true (sx (S
 Proof. destruct u; reflexivity. Qed.
 Lemma tel_spec_default op (u : bool) r p : (op = nop u \/ op = pop u) -> tel_spec op true u r p = tel_spec op false false r p.
 Proof. intros [->| ->]; destruct u; reflexivity. Qed.
-Section Value.
+Section ValueGen.
+(* from the one-step equations of the cached entries to their LTLf values (used twice: for every assignment that violates no constraint,
+   and for the canonical assignment of the existence proof) *)
 Variable h : nat.
 Variable s : st.
-Hypothesis I : Inv h [] s.
 Variable T : trace.
 Variable v : nat -> bool.
-Hypothesis Oc : ok_cls T v s.
-Hypothesis Oe : ok_ext v s.
 Definition val (f : bf) (k : nat) : bool := match lookup s f k with Some (l, _) => ev T v l | None => false end.
-Lemma val_cached f k l : cached s f k l -> val f k = ev T v l.
-Proof. intros [d E]. unfold val. now rewrite E. Qed.
-Lemma vals_of_deps ds ls : all_cached s ds ls -> map (ev T v) ls = map (fun d => val (fst d) (snd d)) ds.
-Proof. intros F. induction F as [|d l ds ls C F IH]; cbn [map]; [reflexivity|]. now rewrite IH, (val_cached _ _ _ C). Qed.
-Lemma deps_are_cached ds ls : all_cached s ds ls -> forall d, In d ds -> exists l, cached s (fst d) (snd d) l.
-Proof. intros F. induction F as [|d l ds ls C F IH]; intros d' Hd; [destruct Hd|]. destruct Hd as [<-|Hd]; [now exists l|now apply IH]. Qed.
 Definition dval (d : bf * nat) : bool := val (fst d) (snd d).
-Lemma entry_cases f k l : cached s f k l -> k <= h /\
-  ((outside h f k = false /\ (forall d, In d (deps f k) -> exists l', cached s (fst d) (snd d) l') /\ val f k = sem T f k (map dval (deps f k)))
+Hypothesis EC : forall f k l, cached s f k l -> k <= h /\
+  (val f k = lsat h T f k
+   \/ (outside h f k = false /\ (forall d, In d (deps f k) -> exists l', cached s (fst d) (snd d) l') /\ val f k = sem T f k (map dval (deps f k)))
    \/ (exists n w x, f = Nx n w x /\ (k + n <=? h) = false /\ val f k = w)).
-Proof.
-  intros [d L]. destruct (I _ _ _ _ L) as [Hk EO]. split; [exact Hk|].
-  assert (val f k = ev T v l) as V0 by (apply val_cached; now exists d).
-  destruct EO as [[Hd [Ho [ls [Cs E]]]]|[Hd [n [w [x [e [-> [-> Pend]]]]]]]].
-  - left. split; [exact Ho|]. split; [now apply (deps_are_cached _ ls)|]. rewrite V0, (E T v Oc (proj1 Oe)). f_equal. now apply vals_of_deps.
-  - right. exists n, w, x. split; [reflexivity|]. destruct (k + n <=? h) eqn:R; [destruct Pend|]. split; [reflexivity|].
-    rewrite V0. unfold ev. cbn. apply (proj2 Oe). exists n, x, k. now subst d.
-Qed.
-Theorem value_at_cached : forall f k l, cached s f k l -> val f k = lsat h T f k.
+Theorem value_gen : forall f k l, cached s f k l -> val f k = lsat h T f k.
 Proof.
   induction f as [a|b|x IH|op x IHx y IHy|n w x IH|x IH|n w x IH|u l IHl r IHr|u r IHr|u l IHl r IHr|u r IHr]; intros k l0 C;
-    destruct (entry_cases _ k l0 C) as [Hk [[Ho [Dc E]]|[n' [w' [x' [Ef [R E]]]]]]]; try discriminate; try (cbn [deps] in Dc, E); cbn [lsat].
+    destruct (EC _ k l0 C) as [Hk [E0|[[Ho [Dc E]]|[n' [w' [x' [Ef [R E]]]]]]]]; try exact E0; try discriminate; try (cbn [deps] in Dc, E); cbn [lsat].
   - exact E.
   - exact E.
   - rewrite E. cbn [sem map]; unfold dval; cbn [fst snd]. destruct (Dc _ (or_introl eq_refl)) as [lx Cx]; cbn [fst snd] in Cx. now rewrite (IH _ _ Cx).
@@ -459,34 +448,64 @@ Proof.
   - injection Ef as <- <- <-. now rewrite R, E.
   - (* until / release with left operand: induction on the distance to the end of the trace *)
     clear Ho Dc E. remember (h - k) as dist eqn:Hd. revert k l0 C Hk Hd. induction dist as [dist IHd] using lt_wf_ind. intros k l0 C Hk Hd.
-    destruct (entry_cases _ k l0 C) as [_ [[_ [Dc E]]|[n' [w' [x' [Ef _]]]]]]; [|discriminate]. cbn [deps] in Dc, E.
+    destruct (EC _ k l0 C) as [_ [E0|[[_ [Dc E]]|[n' [w' [x' [Ef _]]]]]]]; [rewrite Hd; exact E0| |discriminate]. cbn [deps] in Dc, E.
     destruct (Dc _ (or_introl eq_refl)) as [lp Cp]; cbn [fst snd] in Cp. destruct (Dc _ (or_intror (or_introl eq_refl))) as [ll Cl]; cbn [fst snd] in Cl. destruct (Dc _ (or_intror (or_intror (or_introl eq_refl)))) as [lr Cr]; cbn [fst snd] in Cr.
     rewrite E, Hd. cbn [sem map]; unfold dval; cbn [fst snd]. rewrite (IHl _ _ Cl), (IHr _ _ Cr), (fut_step_spec u _ _ h k Hk). f_equal.
-    destruct (entry_cases _ k lp Cp) as [_ [[Ho' [Dc' E']]|[n' [w' [x' [Ef [R E']]]]]]].
+    destruct (EC _ k lp Cp) as [_ [E0|[[Ho' [Dc' E']]|[n' [w' [x' [Ef [R E']]]]]]]]; [rewrite E0; reflexivity| |].
     + cbn [fut_of outside] in Ho'. apply negb_false_iff in Ho'. rewrite Ho', E'. cbn [fut_of deps sem map]; unfold dval; cbn [fst snd].
       destruct (Dc' _ (or_introl eq_refl)) as [ln Cn]; cbn [fst snd] in Cn. apply Nat.leb_le in Ho'.
       apply (IHd (h - (k + 1)) ltac:(lia) (k + 1) ln Cn); lia.
     + unfold fut_of in Ef. injection Ef as <- <- <-. now rewrite R, E'.
   - clear Ho Dc E. remember (h - k) as dist eqn:Hd. revert k l0 C Hk Hd. induction dist as [dist IHd] using lt_wf_ind. intros k l0 C Hk Hd.
-    destruct (entry_cases _ k l0 C) as [_ [[_ [Dc E]]|[n' [w' [x' [Ef _]]]]]]; [|discriminate]. cbn [deps] in Dc, E.
+    destruct (EC _ k l0 C) as [_ [E0|[[_ [Dc E]]|[n' [w' [x' [Ef _]]]]]]]; [rewrite Hd; exact E0| |discriminate]. cbn [deps] in Dc, E.
     destruct (Dc _ (or_introl eq_refl)) as [lp Cp]; cbn [fst snd] in Cp. destruct (Dc _ (or_intror (or_introl eq_refl))) as [lr Cr]; cbn [fst snd] in Cr.
     rewrite E, Hd. cbn [sem map]; unfold dval; cbn [fst snd]. rewrite (IHr _ _ Cr), (fut_step_spec u _ _ h k Hk), (tel_spec_default (nop u) u) by now left. f_equal.
-    destruct (entry_cases _ k lp Cp) as [_ [[Ho' [Dc' E']]|[n' [w' [x' [Ef [R E']]]]]]].
+    destruct (EC _ k lp Cp) as [_ [E0|[[Ho' [Dc' E']]|[n' [w' [x' [Ef [R E']]]]]]]]; [rewrite E0; reflexivity| |].
     + cbn [fut_of outside] in Ho'. apply negb_false_iff in Ho'. rewrite Ho', E'. cbn [fut_of deps sem map]; unfold dval; cbn [fst snd].
       destruct (Dc' _ (or_introl eq_refl)) as [ln Cn]; cbn [fst snd] in Cn. apply Nat.leb_le in Ho'.
       apply (IHd (h - (k + 1)) ltac:(lia) (k + 1) ln Cn); lia.
     + unfold fut_of in Ef. injection Ef as <- <- <-. now rewrite R, E'.
   - (* since / trigger with left operand: induction on the state *)
     clear Ho Dc E Hk. revert l0 C. induction k as [|k IHk]; intros l0 C;
-      destruct (entry_cases _ _ l0 C) as [_ [[_ [Dc E]]|[n' [w' [x' [Ef _]]]]]]; try discriminate; cbn [deps] in Dc, E.
+      destruct (EC _ _ l0 C) as [_ [E0|[[_ [Dc E]]|[n' [w' [x' [Ef _]]]]]]]; try exact E0; try discriminate; cbn [deps] in Dc, E.
     + rewrite E. cbn [sem map pst]; unfold dval; cbn [fst snd]. destruct (Dc _ (or_introl eq_refl)) as [lr Cr]; cbn [fst snd] in Cr. now rewrite (IHr _ _ Cr).
     + destruct (Dc _ (or_introl eq_refl)) as [lp Cp]; cbn [fst snd] in Cp. destruct (Dc _ (or_intror (or_introl eq_refl))) as [ll Cl]; cbn [fst snd] in Cl. destruct (Dc _ (or_intror (or_intror (or_introl eq_refl)))) as [lr Cr]; cbn [fst snd] in Cr.
       rewrite E. cbn [sem map]; unfold dval; cbn [fst snd]. rewrite (IHl _ _ Cl), (IHr _ _ Cr), (IHk _ Cp), pst_step_spec. reflexivity.
   - clear Ho Dc E Hk. revert l0 C. induction k as [|k IHk]; intros l0 C;
-      destruct (entry_cases _ _ l0 C) as [_ [[_ [Dc E]]|[n' [w' [x' [Ef _]]]]]]; try discriminate; cbn [deps] in Dc, E.
+      destruct (EC _ _ l0 C) as [_ [E0|[[_ [Dc E]]|[n' [w' [x' [Ef _]]]]]]]; try exact E0; try discriminate; cbn [deps] in Dc, E.
     + rewrite E. cbn [sem map pst]; unfold dval; cbn [fst snd]. destruct (Dc _ (or_introl eq_refl)) as [lr Cr]; cbn [fst snd] in Cr. now rewrite (IHr _ _ Cr).
     + destruct (Dc _ (or_introl eq_refl)) as [lp Cp]; cbn [fst snd] in Cp. destruct (Dc _ (or_intror (or_introl eq_refl))) as [lr Cr]; cbn [fst snd] in Cr.
       rewrite E. cbn [sem map]; unfold dval; cbn [fst snd]. rewrite (IHr _ _ Cr), (IHk _ Cp), pst_step_spec, (tel_spec_default (pop u) u) by now right. reflexivity.
+Qed.
+End ValueGen.
+Section Value.
+Variable h : nat.
+Variable s : st.
+Hypothesis I : Inv h [] s.
+Variable T : trace.
+Variable v : nat -> bool.
+Hypothesis Oc : ok_cls T v s.
+Hypothesis Oe : ok_ext v s.
+Lemma val_cached f k l : cached s f k l -> val s T v f k = ev T v l.
+Proof. intros [d E]. unfold val. now rewrite E. Qed.
+Lemma vals_of_deps ds ls : all_cached s ds ls -> map (ev T v) ls = map (dval s T v) ds.
+Proof. intros F. induction F as [|d l ds ls C F IH]; cbn [map]; [reflexivity|]. unfold dval at 1. now rewrite IH, (val_cached _ _ _ C). Qed.
+Lemma deps_are_cached ds ls : all_cached s ds ls -> forall d, In d ds -> exists l, cached s (fst d) (snd d) l.
+Proof. intros F. induction F as [|d l ds ls C F IH]; intros d' Hd; [destruct Hd|]. destruct Hd as [<-|Hd]; [now exists l|now apply IH]. Qed.
+Lemma entry_cases f k l : cached s f k l -> k <= h /\
+  ((outside h f k = false /\ (forall d, In d (deps f k) -> exists l', cached s (fst d) (snd d) l') /\ val s T v f k = sem T f k (map (dval s T v) (deps f k)))
+   \/ (exists n w x, f = Nx n w x /\ (k + n <=? h) = false /\ val s T v f k = w)).
+Proof.
+  intros [d L]. destruct (I _ _ _ _ L) as [Hk EO]. split; [exact Hk|].
+  assert (val s T v f k = ev T v l) as V0 by (apply val_cached; now exists d).
+  destruct EO as [[Hd [Ho [ls [Cs E]]]]|[Hd [n [w [x [e [-> [-> Pend]]]]]]]].
+  - left. split; [exact Ho|]. split; [now apply (deps_are_cached _ ls)|]. rewrite V0, (E T v Oc (proj1 Oe)). f_equal. now apply vals_of_deps.
+  - right. exists n, w, x. split; [reflexivity|]. destruct (k + n <=? h) eqn:R; [destruct Pend|]. split; [reflexivity|].
+    rewrite V0. unfold ev. cbn. apply (proj2 Oe). exists n, x, k. now subst d.
+Qed.
+Theorem value_at_cached : forall f k l, cached s f k l -> val s T v f k = lsat h T f k.
+Proof.
+  apply (value_gen h s T v). intros f k l C. destruct (entry_cases f k l C) as [Hk [P|Q]]; split; auto.
 Qed.
 End Value.
 Theorem value_full h s : Inv h [] s -> forall T v, ok_cls T v s -> ok_ext v s -> forall f k l, cached s f k l -> ev T v l = lsat h T f k.
@@ -569,4 +588,359 @@ Corollary incremental_full fuel h s roots s' T v :
   theory_translate fuel (S h) roots s = Some s' -> ok_cls T v s' -> ok_ext v s' ->
   forall f k l, cached s' f k l -> ev T v l = lsat (S h) T f k.
 Proof. intros I Bp Br Run Oc Oe. apply (value_full (S h) s'); auto. eapply theory_translate_inv; eauto. Qed.
+
+(* ================= existence and uniqueness of the auxiliary assignment (ghost invariant over the event log) ================= *)
+Definition own (s : st) (f : bf) (k : nat) (l : lit) : Prop := exists z kd, l = (true, VX z) /\ In (ENew z kd (f, k)) (log s).
+Record Gw (s : st) : Prop := {
+  g_pos : 0 < nxt s;
+  g_bound : forall z kd key, In (ENew z kd key) (log s) -> 0 < z < nxt s;
+  g_uniq : forall z kd key kd' key', In (ENew z kd key) (log s) -> In (ENew z kd' key') (log s) -> kd = kd' /\ key = key';
+  g_all : forall z, 0 < z < nxt s -> exists kd key, In (ENew z kd key) (log s);
+  g_owner : forall z kd f k, In (ENew z kd (f, k)) (log s) -> exists d, lookup s f k = Some ((true, VX z), d);
+  g_shape : forall f k l d, lookup s f k = Some (l, d) ->
+      (exists ls l0, d = true /\ all_cached s (deps f k) ls /\ combine f k ls = Some (CAlias l0) /\ l = l0) \/ own s f k l;
+  g_cover : forall b, In b (cls s) ->
+      (exists z f k ls mk, In (ENew z KChoice (f, k)) (log s) /\ all_cached s (deps f k) ls /\ combine f k ls = Some (CDefine mk) /\ In b (mk (true, VX z)))
+   \/ (exists z kd n w x k lx, In (ENew z kd (Nx n w x, k)) (log s) /\ lookup s (Nx n w x) k = Some ((true, VX z), true) /\ cached s x (k + n) lx /\
+         In b (inst (lmap (true, VX z) lfalse lx lfalse) make_equal_cl_gen)) }.
+Lemma Gw_init : Gw init.
+Proof.
+  split; cbn.
+  - lia.
+  - intros z kd key [].
+  - intros z kd key kd' key' [].
+  - intros z Hz. lia.
+  - intros z kd f k [].
+  - intros f k l d L. unfold lookup in L. cbn in L. discriminate.
+  - intros b [].
+Qed.
+Definition log_incl (s s' : st) := forall e, In e (log s) -> In e (log s').
+Lemma own_mono s s' f k l : log_incl s s' -> own s f k l -> own s' f k l.
+Proof. intros LI [z [kd [E I]]]. exists z, kd. split; [exact E|now apply LI]. Qed.
+Lemma enew_add_cls s key cs z kd key' : In (ENew z kd key') (log (add_cls s key cs)) <-> In (ENew z kd key') (log s).
+Proof. unfold add_cls. cbn [log]. destruct cs; [reflexivity|]. cbn. split; [intros [H|H]; [discriminate|exact H]|now right]. Qed.
+Lemma log_incl_add_cls s key cs : log_incl s (add_cls s key cs).
+Proof. intros e He. unfold add_cls. cbn [log]. destruct cs; [exact He|now right]. Qed.
+(* the covering of old clauses and the shapes of old entries survive any extension that keeps the log *)
+Lemma cover_mono s s' b : ext s s' -> log_incl s s' ->
+  ((exists z f k ls mk, In (ENew z KChoice (f, k)) (log s) /\ all_cached s (deps f k) ls /\ combine f k ls = Some (CDefine mk) /\ In b (mk (true, VX z)))
+   \/ (exists z kd n w x k lx, In (ENew z kd (Nx n w x, k)) (log s) /\ lookup s (Nx n w x) k = Some ((true, VX z), true) /\ cached s x (k + n) lx /\
+         In b (inst (lmap (true, VX z) lfalse lx lfalse) make_equal_cl_gen))) ->
+  ((exists z f k ls mk, In (ENew z KChoice (f, k)) (log s') /\ all_cached s' (deps f k) ls /\ combine f k ls = Some (CDefine mk) /\ In b (mk (true, VX z)))
+   \/ (exists z kd n w x k lx, In (ENew z kd (Nx n w x, k)) (log s') /\ lookup s' (Nx n w x) k = Some ((true, VX z), true) /\ cached s' x (k + n) lx /\
+         In b (inst (lmap (true, VX z) lfalse lx lfalse) make_equal_cl_gen))).
+Proof.
+  intros X LI [[z [f [k [ls [mk [I1 [C1 [Cm Ib]]]]]]]]|[z [kd [n [w [x [k [lx [I1 [L1 [C1 Ib]]]]]]]]]]].
+  - left. exists z, f, k, ls, mk. repeat split; auto. now apply (ext_all_cached s s').
+  - right. exists z, kd, n, w, x, k, lx. repeat split; auto; [|now apply (ext_cached s s')].
+    destruct (ext_cache _ _ X _ _ _ _ L1) as [d' [L' Hd]]. now rewrite L', (Hd eq_refl).
+Qed.
+Lemma shape_mono s s' f k l d : ext s s' -> log_incl s s' ->
+  ((exists ls l0, d = true /\ all_cached s (deps f k) ls /\ combine f k ls = Some (CAlias l0) /\ l = l0) \/ own s f k l) ->
+  ((exists ls l0, d = true /\ all_cached s' (deps f k) ls /\ combine f k ls = Some (CAlias l0) /\ l = l0) \/ own s' f k l).
+Proof.
+  intros X LI [[ls [l0 [Hd [C [Cm E]]]]]|O]; [left|right; now apply (own_mono s s')].
+  exists ls, l0. repeat split; auto. now apply (ext_all_cached s s').
+Qed.
+(* a new entry that reuses a literal *)
+Lemma Gw_alias s f k ls l0 : Gw s -> lookup s f k = None -> all_cached s (deps f k) ls -> combine f k ls = Some (CAlias l0) ->
+  Gw (set_cache (add_cls s (f, k) []) f k l0 true).
+Proof.
+  intros G L C Cm. set (s' := set_cache (add_cls s (f, k) []) f k l0 true).
+  assert (ext s s') as X by now apply ext_set_new. assert (log_incl s s') as LI by (intros e He; exact He).
+  split.
+  - exact (g_pos s G).
+  - exact (g_bound s G).
+  - exact (g_uniq s G).
+  - exact (g_all s G).
+  - intros z kd f' k' I1. change (In (ENew z kd (f', k')) (log s)) in I1. destruct (g_owner s G z kd f' k' I1) as [d Ld].
+    destruct (key_dec f f' k k') as [Ek|N]; [inversion Ek; subst; congruence|]. exists d. unfold s'. now rewrite lookup_set_other.
+  - intros f' k' l d Ld. destruct (key_dec f f' k k') as [Ek|N].
+    + inversion Ek; subst f' k'. unfold s' in Ld. rewrite lookup_set_same in Ld. inversion Ld; subst l d. left. exists ls, l0. repeat split; auto.
+      now apply (ext_all_cached s s').
+    + unfold s' in Ld. rewrite lookup_set_other in Ld by exact N. apply (shape_mono s s' f' k' l d X LI). now apply (g_shape s G).
+  - intros b Hb. change (In b (cls s)) in Hb. apply (cover_mono s s' b X LI). now apply (g_cover s G).
+Qed.
+(* a new entry with a freshly allocated atom: choice atom with its clause group, or external placeholder *)
+Lemma Gw_fresh_entry s f k kd cs d (pend : bool) :
+  Gw s -> lookup s f k = None ->
+  (forall b, In b cs ->
+      (exists ls mk, kd = KChoice /\ all_cached s (deps f k) ls /\ combine f k ls = Some (CDefine mk) /\ In b (mk (true, VX (nxt s))))) ->
+  let s1 := snd (fresh s kd (f, k)) in let s2 := if pend then add_pending s1 k f else s1 in
+  Gw (set_cache (add_cls s2 (f, k) cs) f k (true, VX (nxt s)) d).
+Proof.
+  intros G L Hcs s1 s2. set (s' := set_cache (add_cls s2 (f, k) cs) f k (true, VX (nxt s)) d).
+  assert (lookup s2 f k = None) as L2 by (unfold s2, s1; destruct pend; exact L).
+  assert (ext s s2) as X2 by (unfold s2, s1; destruct pend; split; cbn; eauto).
+  assert (ext s2 s') as X' by now apply ext_set_new. assert (ext s s') as X by (eapply ext_trans; eauto).
+  assert (log s2 = ENew (nxt s) kd (f, k) :: log s) as Lg by (unfold s2, s1; destruct pend; reflexivity).
+  assert (nxt s' = S (nxt s)) as Nx' by (unfold s', s2, s1; destruct pend; reflexivity).
+  assert (forall z kd' key, In (ENew z kd' key) (log s') <-> (ENew z kd' key = ENew (nxt s) kd (f, k) \/ In (ENew z kd' key) (log s))) as Ln.
+  { intros z kd' key. unfold s'. change (log (set_cache (add_cls s2 (f, k) cs) f k (true, VX (nxt s)) d)) with (log (add_cls s2 (f, k) cs)).
+    rewrite enew_add_cls, Lg. cbn. split; intros [H|H]; auto. }
+  assert (log_incl s s') as LI.
+  { intros e He. unfold s'. change (log (set_cache (add_cls s2 (f, k) cs) f k (true, VX (nxt s)) d)) with (log (add_cls s2 (f, k) cs)).
+    apply log_incl_add_cls. rewrite Lg. now right. }
+  pose proof (g_pos s G) as Pos.
+  split.
+  - rewrite Nx'. lia.
+  - intros z kd' key I1. apply Ln in I1 as [E|I1]; [inversion E; subst; rewrite Nx'; lia|]. pose proof (g_bound s G z kd' key I1). rewrite Nx'. lia.
+  - intros z kd1 key1 kd2 key2 I1 I2. apply Ln in I1 as [E1|I1]; apply Ln in I2 as [E2|I2].
+    + inversion E1; inversion E2; subst. auto.
+    + inversion E1; subst. pose proof (g_bound s G _ _ _ I2). lia.
+    + inversion E2; subst. pose proof (g_bound s G _ _ _ I1). lia.
+    + exact (g_uniq s G z kd1 key1 kd2 key2 I1 I2).
+  - intros z Hz. rewrite Nx' in Hz. destruct (Nat.eq_dec z (nxt s)) as [->|Ne].
+    + exists kd, (f, k). apply Ln. now left.
+    + destruct (g_all s G z ltac:(lia)) as [kd' [key I1]]. exists kd', key. apply Ln. now right.
+  - intros z kd' f' k' I1. apply Ln in I1 as [E|I1].
+    + inversion E; subst. exists d. apply lookup_set_same.
+    + destruct (g_owner s G z kd' f' k' I1) as [d' Ld]. destruct (key_dec f f' k k') as [Ek|N]; [inversion Ek; subst; congruence|].
+      destruct (ext_cache _ _ X2 _ _ _ _ Ld) as [d2 [Ld2 _]]. exists d2. unfold s'. now rewrite lookup_set_other.
+  - intros f' k' l d' Ld. destruct (key_dec f f' k k') as [Ek|N].
+    + inversion Ek; subst f' k'. unfold s' in Ld. rewrite lookup_set_same in Ld. inversion Ld; subst l d'. right. exists (nxt s), kd. split; [reflexivity|]. apply Ln. now left.
+    + unfold s' in Ld. rewrite lookup_set_other in Ld by exact N.
+      assert (lookup s f' k' = Some (l, d')) as Ls by (unfold s2, s1 in Ld; destruct pend; exact Ld).
+      apply (shape_mono s s' f' k' l d' X LI). now apply (g_shape s G).
+  - intros b Hb. unfold s' in Hb. rewrite cls_set_add in Hb. apply in_app_or in Hb as [Hb|Hb].
+    + destruct (Hcs b Hb) as [ls [mk [-> [C [Cm Ib]]]]]. left. exists (nxt s), f, k, ls, mk. repeat split; auto; [apply Ln; now left|now apply (ext_all_cached s s')].
+    + assert (In b (cls s)) as Hb' by (unfold s2, s1 in Hb; destruct pend; exact Hb).
+      apply (cover_mono s s' b X LI). now apply (g_cover s G).
+Qed.
+(* a placeholder is resolved: its entry is completed and tied to the literal of its argument *)
+Lemma Gw_resolve s n w x k e lx d1 : Gw s -> lookup s (Nx n w x) k = Some ((true, VX e), d1) -> own s (Nx n w x) k (true, VX e) -> cached s x (k + n) lx ->
+  Gw (set_cache (add_free (add_cls s (Nx n w x, k) (inst (lmap (true, VX e) lfalse lx lfalse) make_equal_cl_gen)) e) (Nx n w x) k (true, VX e) true).
+Proof.
+  intros G L Ow Cx. set (cs := inst (lmap (true, VX e) lfalse lx lfalse) make_equal_cl_gen).
+  set (s' := set_cache (add_free (add_cls s (Nx n w x, k) cs) e) (Nx n w x) k (true, VX e) true).
+  assert (ext s s') as X.
+  { split.
+    - intros f' k' l1 d0 E. destruct (key_dec (Nx n w x) f' k k') as [Ek|N].
+      + inversion Ek; subst. rewrite L in E. inversion E; subst. exists true. split; [apply lookup_set_same|auto].
+      + exists d0. split; [|auto]. unfold s'. now rewrite lookup_set_other by exact N.
+    - intros b Hb. change (In b (cs ++ cls s)). apply in_or_app. now right.
+    - auto.
+    - intros e0 He. change (In e0 (EFree e :: log (add_cls s (Nx n w x, k) cs))). right. unfold add_cls. cbn [log]. destruct cs; [exact He|now right]. }
+  assert (forall z kd key, In (ENew z kd key) (log s') <-> In (ENew z kd key) (log s)) as Ln.
+  { intros z kd key. unfold s'. change (log (set_cache (add_free (add_cls s (Nx n w x, k) cs) e) (Nx n w x) k (true, VX e) true)) with (EFree e :: log (add_cls s (Nx n w x, k) cs)).
+    cbn [In]. rewrite enew_add_cls. split; [intros [H|H]; [discriminate|exact H]|now right]. }
+  assert (log_incl s s') as LI.
+  { intros ev0 He. unfold s'. change (log (set_cache (add_free (add_cls s (Nx n w x, k) cs) e) (Nx n w x) k (true, VX e) true)) with (EFree e :: log (add_cls s (Nx n w x, k) cs)).
+    right. now apply log_incl_add_cls. }
+  split.
+  - exact (g_pos s G).
+  - intros z kd key I1. apply Ln in I1. exact (g_bound s G z kd key I1).
+  - intros z kd1 key1 kd2 key2 I1 I2. apply Ln in I1. apply Ln in I2. exact (g_uniq s G z kd1 key1 kd2 key2 I1 I2).
+  - intros z Hz. destruct (g_all s G z Hz) as [kd [key I1]]. exists kd, key. now apply Ln.
+  - intros z kd f' k' I1. apply Ln in I1. destruct (g_owner s G z kd f' k' I1) as [d Ld]. destruct (ext_cache _ _ X _ _ _ _ Ld) as [d' [Ld' _]]. now exists d'.
+  - intros f' k' l d Ld. destruct (key_dec (Nx n w x) f' k k') as [Ek|N].
+    + inversion Ek; subst f' k'. unfold s' in Ld. rewrite lookup_set_same in Ld. inversion Ld; subst l d. right. now apply (own_mono s s').
+    + unfold s' in Ld. rewrite lookup_set_other in Ld by exact N. apply (shape_mono s s' f' k' l d X LI). now apply (g_shape s G).
+  - intros b Hb. change (In b (cs ++ cls s)) in Hb. apply in_app_or in Hb as [Hb|Hb].
+    + destruct Ow as [z [kd [Ez Iz]]]. inversion Ez; subst z. right. exists e, kd, n, w, x, k, lx. split; [now apply LI|]. split; [apply lookup_set_same|]. split; [now apply (ext_cached s s')|exact Hb].
+    + apply (cover_mono s s' b X LI). now apply (g_cover s G).
+Qed.
+Lemma Gw_same s s' : Gw s -> nxt s' = nxt s -> log s' = log s -> cls s' = cls s -> cache s' = cache s -> Gw s'.
+Proof.
+  intros G En El Ec Ek. assert (forall f k, lookup s' f k = lookup s f k) as Lk by (intros; unfold lookup; now rewrite Ek).
+  assert (forall f k l, cached s' f k l <-> cached s f k l) as Ck by (intros; unfold cached; now rewrite Lk).
+  assert (forall ds ls, all_cached s ds ls -> all_cached s' ds ls) as Ak.
+  { intros ds ls F. induction F; constructor; [now apply Ck|assumption]. }
+  split.
+  - rewrite En. exact (g_pos s G).
+  - intros z kd key. rewrite El, En. apply (g_bound s G).
+  - intros z kd key kd' key'. rewrite El. apply (g_uniq s G).
+  - intros z. rewrite En, El. apply (g_all s G).
+  - intros z kd f k. rewrite El, Lk. apply (g_owner s G).
+  - intros f k l d. rewrite Lk. intros Ld. destruct (g_shape s G f k l d Ld) as [[ls [l0 [Hd [C [Cm E]]]]]|[z [kd [E I1]]]].
+    + left. exists ls, l0. repeat split; auto.
+    + right. exists z, kd. split; [exact E|now rewrite El].
+  - intros b. rewrite Ec. intros Hb. destruct (g_cover s G b Hb) as [[z [f [k [ls [mk [I1 [C1 [Cm Ib]]]]]]]]|[z [kd [n [w [x [k [lx [I1 [L1 [C1 Ib]]]]]]]]]]].
+    + left. exists z, f, k, ls, mk. rewrite El. repeat split; auto.
+    + right. exists z, kd, n, w, x, k, lx. rewrite El, Lk. repeat split; auto. now apply Ck.
+Qed.
+
+(* ---------------- preservation of the ghost invariant ---------------- *)
+Lemma go_gw (tr : bf -> nat -> st -> option (lit * st)) h todo :
+  (forall g j s l s', Inv h todo s -> j <= h -> tr g j s = Some (l, s') -> Inv h todo s' /\ ext s s' /\ cached s' g j l) ->
+  (forall g j s l s', Inv h todo s -> Gw s -> j <= h -> tr g j s = Some (l, s') -> Gw s') ->
+  forall ds s ls s', Inv h todo s -> Gw s -> (forall d, In d ds -> snd d <= h) -> go tr ds s = Some (ls, s') -> Gw s'.
+Proof.
+  intros Hi Hg. induction ds as [|[g j] r IH]; intros s ls s' I G Bd Go; cbn [go] in Go.
+  - now inversion Go; subst.
+  - destruct (tr g j s) as [[l1 s1]|] eqn:T1; [|discriminate]. destruct (go tr r s1) as [[ls' s2]|] eqn:G2; [|discriminate]. inversion Go; subst.
+    pose proof (Bd (g, j) (or_introl eq_refl)) as Hj. destruct (Hi g j s l1 s1 I Hj T1) as [I1 _].
+    apply (IH s1 ls' s' I1 (Hg g j s l1 s1 I G Hj T1) (fun d Hd => Bd d (or_intror Hd)) G2).
+Qed.
+Lemma fin_some s f k l d cs l' s' : fin s f k l d cs = Some (l', s') -> lookup s f k = None /\ l' = l /\ s' = set_cache (add_cls s (f, k) cs) f k l d.
+Proof. unfold fin. destruct (lookup s f k); [discriminate|]. intros E. inversion E. auto. Qed.
+Theorem translate_gw fuel h todo : forall f k s l s', Inv h todo s -> Gw s -> k <= h -> translate fuel h f k s = Some (l, s') -> Gw s'.
+Proof.
+  induction fuel as [|fu IH]; intros f k s l s' I G Hk Tr; [discriminate|]. cbn [translate] in Tr.
+  destruct (lookup s f k) as [[l0 [|]]|] eqn:L.
+  - inversion Tr; subst. exact G.
+  - destruct (I _ _ _ _ L) as [_ [[Hd _]|[_ [n [w [x [e [-> [-> Pend]]]]]]]]]; [discriminate|].
+    assert (own s (Nx n w x) k (true, VX e)) as Ow by (destruct (g_shape s G _ _ _ _ L) as [[ls [l1 [Hd _]]]|O]; [discriminate|exact O]).
+    destruct (k + n <=? h) eqn:R.
+    + apply Nat.leb_le in R. destruct (translate fu h x (k + n) s) as [[lx s1]|] eqn:Tx; [|discriminate]. inversion Tr; subst l s'. clear Tr.
+      destruct (translate_inv fu h todo x (k + n) s lx s1 I R Tx) as [I1 [X1 Cx]]. pose proof (IH x (k + n) s lx s1 I G R Tx) as G1.
+      destruct (ext_cache _ _ X1 _ _ _ _ L) as [d1 [L1 _]].
+      apply (Gw_resolve s1 n w x k e lx d1 G1 L1); [|exact Cx]. apply (own_mono s s1); [exact (ext_log _ _ X1)|exact Ow].
+    + inversion Tr; subst l s'. apply (Gw_same s); auto.
+  - destruct (outside h f k) eqn:O.
+    + destruct (outside_is_next h f k O) as [n [w [x [-> R]]]]. cbn [fresh] in Tr. apply fin_some in Tr as [L2 [-> ->]].
+      apply (Gw_fresh_entry s (Nx n w x) k (KExt (Some w)) [] false true G L). intros b [].
+    + destruct (go (translate fu h) (deps f k) s) as [[ls s1]|] eqn:Go; [|discriminate].
+      destruct (go_inv (translate fu h) h todo (fun g j s0 l1 s1' I0 Hj T0 => translate_inv fu h todo g j s0 l1 s1' I0 Hj T0) (deps f k) s ls s1 I (deps_bound h f k Hk O) Go)
+        as [I1 [X1 C1]].
+      pose proof (go_gw (translate fu h) h todo (fun g j s0 l1 s1' I0 Hj T0 => translate_inv fu h todo g j s0 l1 s1' I0 Hj T0)
+                    (fun g j s0 l1 s1' I0 G0 Hj T0 => IH g j s0 l1 s1' I0 G0 Hj T0) (deps f k) s ls s1 I G (deps_bound h f k Hk O) Go) as G1.
+      destruct (combine f k ls) as [[l0|cs]|] eqn:Cm; [| |discriminate].
+      * apply fin_some in Tr as [L1 [-> ->]]. now apply (Gw_alias s1 f k ls l0).
+      * cbn [fresh] in Tr. apply fin_some in Tr as [L1 [-> ->]].
+        apply (Gw_fresh_entry s1 f k KChoice (cs (true, VX (nxt s1))) true false G1 L1). intros b Hb. exists ls, cs. auto.
+Qed.
+Lemma run_list_gw fuel h : forall r todo s s', Inv h todo s -> Gw s -> (forall p, In p todo -> In p r) -> (forall p, In p r -> fst p <= h) ->
+  run_list fuel h r s = Some s' -> Gw s'.
+Proof.
+  induction r as [|[k f] r IH]; intros todo s s' I G Sub Bd Run; cbn [run_list] in Run.
+  - now inversion Run; subst.
+  - destruct (translate fuel h f k s) as [[l s1]|] eqn:Tr; [|discriminate].
+    assert (k <= h) as Hk by (apply (Bd (k, f)); now left).
+    destruct (translate_inv fuel h todo f k s l s1 I Hk Tr) as [I1 [X1 C1]].
+    apply (IH (filter (neqb k f) todo) s1 s'); [| | | |exact Run].
+    + apply Inv_drop; [exact I1|]. intros n w x l0 -> L0. exact (nx_resolved_or_requeued fuel h todo n w x k s l s1 I Tr l0 L0).
+    + exact (translate_gw fuel h todo f k s l s1 I G Hk Tr).
+    + intros p Hp. apply filter_In in Hp as [Hp NB]. destruct (Sub p Hp) as [<-|Hr]; [|exact Hr].
+      unfold neqb in NB. cbn in NB. rewrite Nat.eqb_refl in NB. destruct (bf_eq_dec f f); [discriminate|contradiction].
+    + intros p Hp. apply Bd. now right.
+Qed.
+Theorem theory_translate_gw fuel h s roots s' :
+  Inv h [] s -> Gw s -> (forall p, In p (pending s) -> fst p <= S h) -> (forall p, In p roots -> fst p <= S h) ->
+  theory_translate fuel (S h) roots s = Some s' -> Gw s'.
+Proof.
+  intros I G Bp Br Run. unfold theory_translate in Run.
+  apply (run_list_gw fuel (S h) (rev (pending s) ++ roots) (pending s) (clear_pending s) s' (Inv_next_horizon h s I)); [| | |exact Run].
+  - apply (Gw_same s); auto.
+  - intros p Hp. apply in_or_app. left. now apply in_rev in Hp.
+  - intros p Hp. apply in_app_or in Hp as [Hp|Hp]; [apply Bp; now apply in_rev|now apply Br].
+Qed.
+
+(* ---------------- the canonical assignment: every auxiliary atom gets the LTLf value of the entry that allocated it ---------------- *)
+Definition is_new (z : nat) (e : event) : bool := match e with ENew n _ _ => n =? z | _ => false end.
+Definition owner_of (s : st) (z : nat) : option (bf * nat) := match find (is_new z) (log s) with Some (ENew _ _ key) => Some key | _ => None end.
+Definition vstar (h : nat) (T : trace) (s : st) (z : nat) : bool := match owner_of s z with Some (f, k) => lsat h T f k | None => false end.
+Lemma owner_of_in s z kd key : Gw s -> In (ENew z kd key) (log s) -> owner_of s z = Some key.
+Proof.
+  intros G I1. unfold owner_of. destruct (find (is_new z) (log s)) as [e|] eqn:F.
+  - apply find_some in F as [Ie Ne]. destruct e as [n kd' key'| |]; try discriminate. cbn in Ne. apply Nat.eqb_eq in Ne. subst n.
+    destruct (g_uniq s G z kd key kd' key' I1 Ie) as [_ ->]. reflexivity.
+  - exfalso. pose proof (find_none _ _ F _ I1) as N. cbn in N. now rewrite Nat.eqb_refl in N.
+Qed.
+Lemma vstar_zero h T s : Gw s -> vstar h T s 0 = false.
+Proof.
+  intros G. unfold vstar, owner_of. destruct (find (is_new 0) (log s)) as [e|] eqn:F; [|reflexivity].
+  apply find_some in F as [Ie Ne]. destruct e as [n kd key| |]; try discriminate. cbn in Ne. apply Nat.eqb_eq in Ne. subst n.
+  pose proof (g_bound s G 0 kd key Ie). lia.
+Qed.
+Lemma vstar_own h T s f k z kd : Gw s -> In (ENew z kd (f, k)) (log s) -> ev T (vstar h T s) (true, VX z) = lsat h T f k.
+Proof. intros G I1. unfold ev. cbn. unfold vstar. now rewrite (owner_of_in s z kd (f, k) G I1). Qed.
+(* the LTLf semantics satisfies the one-step equations *)
+Lemma sem_sound h T f k : k <= h -> outside h f k = false -> lsat h T f k = sem T f k (map (fun d => lsat h T (fst d) (snd d)) (deps f k)).
+Proof.
+  intros Hk Ho. destruct f as [a|b|x|op x y|n w x|x|n w x|u l r|u r|u l r|u r]; cbn [lsat deps sem map fst snd]; try reflexivity.
+  - destruct (n <=? k); reflexivity.
+  - cbn [outside] in Ho. apply negb_false_iff in Ho. now rewrite Ho.
+  - rewrite (fut_step_spec u _ _ h k Hk). unfold fut_of. cbn [lsat]. reflexivity.
+  - rewrite (fut_step_spec u _ _ h k Hk), (tel_spec_default (nop u) u) by now left. unfold fut_of. cbn [lsat]. reflexivity.
+  - destruct k as [|k']; cbn [deps map sem fst snd]; [reflexivity|]. now rewrite pst_step_spec.
+  - destruct k as [|k']; cbn [deps map sem fst snd]; [reflexivity|]. now rewrite pst_step_spec, (tel_spec_default (pop u) u) by now right.
+Qed.
+(* converse reading of the clause groups: an assignment that gives the literal its one-step value violates none of the group's constraints *)
+Lemma holds_inst T v m cs : holds (fun x => ev T v (m x)) cs = true -> forall b, In b (inst m cs) -> forallb (ev T v) b = false.
+Proof.
+  intros Ho b Hb. unfold inst in Hb. apply in_map_iff in Hb as [c [<- Hc]]. unfold holds in Ho. rewrite forallb_forall in Ho.
+  specialize (Ho c Hc). apply negb_true_iff in Ho. rewrite <- Ho. rewrite forallb_map_. apply forallb_ext_. intros [x|x]; cbn [evl]; [reflexivity|now rewrite ev_nlit].
+Qed.
+Lemma eqb_refl_true a b : a = b -> Bool.eqb a b = true.  Proof. intros ->. apply Bool.eqb_reflx. Qed.
+Lemma combine_holds T v f k ls mk l : combine f k ls = Some (CDefine mk) -> ev T v l = sem T f k (map (ev T v) ls) ->
+  forall b, In b (mk l) -> forallb (ev T v) b = false.
+Proof.
+  intros C E. destruct f as [a|b0|x|op x y|n w x|x|n w x|u l1 r|u r|u l1 r|u r]; cbn [combine] in C.
+  - destruct ls; discriminate.
+  - destruct ls; discriminate.
+  - destruct ls as [|lx [|? ?]]; discriminate.
+  - destruct ls as [|lx [|ly [|? ?]]]; try discriminate. inversion C; subst mk. cbn [sem map] in E. apply holds_inst. rewrite boolean_clauses_spec. cbn [lmap]. now apply eqb_refl_true.
+  - destruct (n <=? k); [destruct ls as [|lx [|? ?]]|destruct ls]; discriminate.
+  - destruct ls as [|lx [|? ?]]; discriminate.
+  - destruct ls as [|lx [|? ?]]; discriminate.
+  - destruct ls as [|lp [|ll [|lr [|? ?]]]]; try discriminate. inversion C; subst mk. cbn [sem map] in E. apply holds_inst. rewrite tel_clauses_spec. cbn [lmap]. now apply eqb_refl_true.
+  - destruct ls as [|lp [|lr [|? ?]]]; try discriminate. inversion C; subst mk. cbn [sem map] in E. apply holds_inst. rewrite tel_clauses_spec. cbn [lmap].
+    apply eqb_refl_true. rewrite E. apply tel_spec_nolhs.
+  - destruct k as [|k']; [destruct ls as [|lr [|? ?]]; discriminate|]. destruct ls as [|lp [|ll [|lr [|? ?]]]]; try discriminate. inversion C; subst mk. cbn [sem map] in E.
+    apply holds_inst. rewrite tel_clauses_spec. cbn [lmap]. now apply eqb_refl_true.
+  - destruct k as [|k']; [destruct ls as [|lr [|? ?]]; discriminate|]. destruct ls as [|lp [|lr [|? ?]]]; try discriminate. inversion C; subst mk. cbn [sem map] in E.
+    apply holds_inst. rewrite tel_clauses_spec. cbn [lmap]. apply eqb_refl_true. rewrite E. apply tel_spec_nolhs.
+Qed.
+Lemma define_not_next f k ls mk : combine f k ls = Some (CDefine mk) -> forall h, outside h f k = false.
+Proof. intros C h. destruct f; try reflexivity. cbn [combine] in C. destruct ls as [|lx [|? ?]]; discriminate. Qed.
+Section Exist.
+Variable h : nat.
+Variable s : st.
+Hypothesis I : Inv h [] s.
+Hypothesis G : Gw s.
+Variable T : trace.
+Notation vs := (vstar h T s).
+Lemma vstar_values : forall f k l, cached s f k l -> ev T vs l = lsat h T f k.
+Proof.
+  intros f k l C. rewrite <- (val_cached s T vs f k l C). apply (value_gen h s T vs) with (l := l); [|exact C]. clear f k l C.
+  intros f k l [d L]. destruct (I _ _ _ _ L) as [Hk EO]. split; [exact Hk|].
+  assert (val s T vs f k = ev T vs l) as V0 by (apply val_cached; now exists d).
+  destruct (g_shape s G f k l d L) as [[ls [l0 [Hd [Cs [Cm ->]]]]]|[z [kd [-> I1]]]].
+  - right. left. destruct EO as [[_ [Ho _]]|[Hd' _]]; [|congruence]. split; [exact Ho|]. split; [now apply (deps_are_cached s _ ls)|].
+    rewrite V0. rewrite (combine_sem T vs f k ls (CAlias l0) (vstar_zero h T s G) Cm). f_equal. now apply vals_of_deps.
+  - left. rewrite V0. now apply (vstar_own h T s f k z kd).
+Qed.
+Lemma vstar_values_list ds ls : all_cached s ds ls -> map (fun d => lsat h T (fst d) (snd d)) ds = map (ev T vs) ls.
+Proof. intros F. induction F as [|dp l0 ds ls0 C F IH]; cbn [map]; [reflexivity|]. now rewrite IH, (vstar_values _ _ _ C). Qed.
+Theorem exists_full : ok_cls T vs s /\ ok_ext vs s.
+Proof.
+  split.
+  - intros b Hb. destruct (g_cover s G b Hb) as [[z [f [k [ls [mk [I1 [C1 [Cm Ib]]]]]]]]|[z [kd [n [w [x [k [lx [I1 [L1 [C1 Ib]]]]]]]]]]].
+    + destruct (g_owner s G z KChoice f k I1) as [d L]. destruct (I _ _ _ _ L) as [Hk _].
+      apply (combine_holds T vs f k ls mk (true, VX z) Cm); [|exact Ib].
+      rewrite (vstar_own h T s f k z KChoice G I1), (sem_sound h T f k Hk (define_not_next f k ls mk Cm h)). f_equal.
+      now apply vstar_values_list.
+    + destruct (I _ _ _ _ L1) as [Hk [[_ [Ho _]]|[Hd _]]]; [|discriminate]. cbn [outside] in Ho. apply negb_false_iff in Ho.
+      apply (holds_inst T vs (lmap (true, VX z) lfalse lx lfalse) make_equal_cl_gen); [|exact Ib]. rewrite make_equal_spec. cbn [lmap]. apply eqb_refl_true.
+      rewrite (vstar_own h T s (Nx n w x) k z kd G I1), (vstar_values _ _ _ C1). cbn [lsat]. now rewrite Ho.
+  - split; [now apply vstar_zero|]. intros e w [n [x [k L]]]. destruct (I _ _ _ _ L) as [Hk [[Hd _]|[_ [n' [w' [x' [e' [Ef [El Pend]]]]]]]]]; [discriminate|].
+    injection Ef as <- <- <-. destruct (k + n <=? h) eqn:R; [destruct Pend|].
+    destruct (g_shape s G _ _ _ _ L) as [[ls [l0 [Hd _]]]|[z [kd [Ez I1]]]]; [discriminate|]. injection Ez as <-.
+    pose proof (vstar_own h T s (Nx n w x) k e kd G I1) as V. unfold ev in V. cbn in V. rewrite V. cbn [lsat]. now rewrite R.
+Qed.
+Theorem unique_full (v : nat -> bool) : ok_cls T v s -> ok_ext v s -> forall z, 0 < z < nxt s -> v z = vs z.
+Proof.
+  intros Oc Oe z Hz. destruct (g_all s G z Hz) as [kd [[f k] I1]]. destruct (g_owner s G z kd f k I1) as [d L].
+  pose proof (value_full h s I T v Oc Oe f k (true, VX z) (ex_intro _ d L)) as V. unfold ev in V. cbn in V. rewrite V.
+  pose proof (vstar_own h T s f k z kd G I1) as W. unfold ev in W. cbn in W. now rewrite W.
+Qed.
+End Exist.
+(* The whole story for one more horizon: after Theory.translate at horizon S h both invariants hold again; for every trace T there is an
+   assignment of the auxiliary atoms that violates no constraint and gives the pending placeholders their boundary values, it is unique on
+   all allocated atoms, and under it every cached literal has the LTLf value of its formula.  Hence body formulas have a definite truth value
+   in every answer set and mentioning one neither creates, destroys nor duplicates answer sets - for the FULL operator set. *)
+Theorem definitional_extension_full fuel h s roots s' :
+  Inv h [] s -> Gw s -> (forall p, In p (pending s) -> fst p <= S h) -> (forall p, In p roots -> fst p <= S h) ->
+  theory_translate fuel (S h) roots s = Some s' ->
+  Inv (S h) [] s' /\ Gw s' /\
+  forall T : trace,
+    (ok_cls T (vstar (S h) T s') s' /\ ok_ext (vstar (S h) T s') s') /\
+    forall v : nat -> bool, ok_cls T v s' -> ok_ext v s' ->
+      (forall z, 0 < z < nxt s' -> v z = vstar (S h) T s' z) /\
+      (forall f k l, cached s' f k l -> ev T v l = lsat (S h) T f k).
+Proof.
+  intros I G Bp Br Run. pose proof (theory_translate_inv fuel h s roots s' I Bp Br Run) as I'. pose proof (theory_translate_gw fuel h s roots s' I G Bp Br Run) as G'.
+  split; [exact I'|]. split; [exact G'|]. intros T. split; [now apply exists_full|]. intros v Oc Oe. split; [now apply unique_full|now apply value_full].
+Qed.
 End BTF.
